@@ -9,7 +9,7 @@ export CARGO_TARGET_DIR=/tmp/seed/target CARGO_NET_OFFLINE=true
 cd "$WT" || exit 2
 git checkout -q -- . ; rm -f $TDIR/seeded_demo*.rs; mkdir -p $TDIR
 name=seeded_demo_$(basename "$PATCH" .diff | sed 's/patch_//')
-failed_set() { grep -E "^test .* FAILED" | sort -u; }
+failed_set() { grep -E "^test .* FAILED" | grep -v "^test result" | sort -u; }
 base=$(cargo test --offline -p $PKG $FEAT --no-fail-fast 2>&1 | failed_set)
 cp "$DEMO" $TDIR/$name.rs
 without=$(cargo test --offline -p $PKG $FEAT --test $name 2>&1 | grep -E "^test result" | tail -1 | cut -c1-40)
